@@ -442,9 +442,33 @@ func spanOf(l gts.Location) (int, int) {
 	return 0, 0
 }
 
+// c03WrapWitness replays the kernel-checked witness of Gts.C03.slice_wrap_feature_full_refuted (the
+// wrap-around window law without the K2 guard) on the real code and on the model, and the non-vacuity
+// instance of slice_wrap_neg_den_partial (a negative start index).
+func c03WrapWitness(r *Run) {
+	p := []byte("acgtacgtac")
+	w := gts.New(nil, gts.FeatureSlice{{Key: "gene", Loc: gts.Joined{gts.Ranged{Start: 2, End: 4}, gts.Point(4)}}}, p)
+	line := fmt.Sprintf("seq.slice %s 8 5", encSeq(w))
+	out := r.op(line)
+	want := encSeq(gts.New(nil, gts.FeatureSlice{{Key: "gene", Loc: gts.Ranged{Start: 4, End: 6}}}, []byte("acacgta")))
+	r.count("wrap-witness")
+	if out != want {
+		r.fail(Failure{Oracle: "slice: the witness of Gts.C03.slice_wrap_feature_full_refuted reproduces on the real code", Op: line, Got: out, Want: want})
+	}
+	n := gts.New(nil, gts.FeatureSlice{{Key: "CDS", Loc: gts.Complemented{Location: gts.Joined{
+		gts.Ranged{Start: 1, End: 3, Partial: gts.Partial{Partial5: true}}, gts.Point(5), gts.Ranged{Start: 8, End: 10}}}}}, p)
+	line = fmt.Sprintf("seq.slice %s -2 4", encSeq(n))
+	out = r.op(line)
+	res := gts.Slice(copySeq(n), -2, 4)
+	if out == "PANIC" || len(res.Features()) != 1 || denStr(den(res.Features()[0].Loc)) != denStr([]pos{{1, true}, {0, true}, {4, true}, {3, true}}) {
+		r.fail(Failure{Oracle: "slice: the instance of Gts.C03.slice_wrap_neg_den_partial (negative start) holds on the real code", Op: line, Got: out})
+	}
+}
+
 func propC03(r *Run) {
 	L, _, nRandom := scope(r)
 	r.exhaustive = true
+	c03WrapWitness(r)
 	for _, l := range smallLocs(L, true) {
 		for i := 0; i <= L; i++ {
 			for k := 1; i+k <= L; k++ {
@@ -992,9 +1016,39 @@ func isCanonical(l gts.Location) (ok bool) {
 	return true
 }
 
+// c05InvolutionWitnesses replays, on the real code and on the model, the kernel-checked witnesses of
+// the refuted involution statements of lean/Gts/Props/C05.lean (Reverse twice): the protocol lines go
+// through the correspondence diff, and the implementation's answers are compared with the values the
+// Lean theorems compute (reverse_involutive_full_refuted, reverse_involutive_k2_refuted,
+// reverse_involutive_absorb_refuted / reverse_twice_den_eq_refuted, reverse_twice_den_full_refuted).
+func c05InvolutionWitnesses(r *Run) {
+	pt := func(p int) gts.Location { return gts.Point(p) }
+	rg := func(s, e int) gts.Location { return gts.Ranged{Start: s, End: e} }
+	for _, w := range []struct {
+		thm         string
+		l           gts.Location
+		once, twice string
+	}{
+		{"reverse_involutive_full_refuted", gts.Joined{pt(3), rg(4, 8)}, "(R 2 6 0 0)", "(R 4 8 0 0)"},
+		{"reverse_involutive_k2_refuted", gts.Joined{pt(4), gts.Between(4)}, "(P 5)", "(P 4)"},
+		{"reverse_involutive_absorb_refuted", gts.Joined{rg(2, 5), pt(4)}, "(R 5 8 0 0)", "(R 2 5 0 0)"},
+		{"reverse_twice_den_full_refuted", gts.Joined{rg(2, 6), gts.Between(5), pt(6)}, "(J (P 3) (R 4 8 0 0))", "(R 2 6 0 0)"},
+	} {
+		line := fmt.Sprintf("loc.reverse %s 10", encLoc(w.l))
+		once := r.op(line)
+		twice := r.op(fmt.Sprintf("loc.reverse %s 10", once))
+		r.count("involution-witness")
+		if once != w.once || twice != w.twice {
+			r.fail(Failure{Oracle: "reverse twice: the witness of Gts.C05." + w.thm + " reproduces on the real code",
+				Op: line, Got: once + " ; " + twice, Want: w.once + " ; " + w.twice})
+		}
+	}
+}
+
 func propC05(r *Run) {
 	L, _, nRandom := scope(r)
 	r.exhaustive = true
+	c05InvolutionWitnesses(r)
 	for _, l := range smallLocs(L, true) {
 		c05Loc(r, l, L)
 		c05Loc(r, l, L+3)
